@@ -170,6 +170,10 @@ type snapshot struct {
 	jdur    []byte            // journal file guaranteed after a crash
 	jtmp    []byte            // leftover temporary journal file
 	lastAck uint64            // persistent state id acknowledged (see oracle)
+	// recFloor: a Recover rolled (or is rolling) the database back to exactly the history
+	// tail recFloor; only then may the disk layer sit ON the tail after a reopen
+	recFloor    uint64
+	recFloorSet bool
 }
 
 type recorder struct {
@@ -178,6 +182,8 @@ type recorder struct {
 	kinds  []int64
 	snaps  []*snapshot
 	nested int
+	// violations of rules checked at event time (see evFreezer.TruncateTail)
+	violations []string
 	// kvSynced: SyncKeyValue was called since the flag was last cleared
 	kvSynced bool
 }
@@ -289,6 +295,17 @@ func (f *evFreezer) TruncateTail(group string, n uint64) (uint64, error) {
 		}
 	}
 	o, err := f.ResettableAncientStore.TruncateTail(group, n)
+	// disklayer.go writeHistory: tail truncation is postponed (and a flush forced) until
+	// the persistent state id is >= the id of the first REMAINING history (new tail + 1):
+	// the history of the persisted state itself is never pruned, so that a crash right
+	// after the truncation reopens at a state that can still be rolled back
+	if nt, terr := f.ResettableAncientStore.Tail(group); terr == nil && nt > old {
+		if pid := rawdb.ReadPersistentStateID(f.rec.w.kv); nt+1 > pid {
+			f.rec.violations = append(f.rec.violations, fmt.Sprintf(
+				"history tail truncated to %d while the persistent state id is %d: the history of the persisted state (first remaining history must be <= persistent id) is pruned", nt, pid))
+		}
+		f.rec.w.recFloorSet = false
+	}
 	f.rec.event(evFrTruncTail)
 	return o, err
 }
@@ -321,6 +338,8 @@ type world struct {
 	jdur       []byte
 	jdurSet    bool
 	lastAck    uint64
+	recFloor    uint64
+	recFloorSet bool
 }
 
 func (w *world) ancientDir() string { return filepath.Join(w.base, "ancient") }
@@ -365,7 +384,8 @@ func readFileOrNil(p string) []byte {
 }
 
 func (w *world) snapshot() *snapshot {
-	s := &snapshot{kv: map[string][]byte{}, fr: readDirFiles(w.frDir()), frMeta: map[string][]byte{}, lastAck: w.lastAck}
+	s := &snapshot{kv: map[string][]byte{}, fr: readDirFiles(w.frDir()), frMeta: map[string][]byte{}, lastAck: w.lastAck,
+		recFloor: w.recFloor, recFloorSet: w.recFloorSet}
 	it := w.kv.NewIterator(nil, nil)
 	for it.Next() {
 		s.kv[string(it.Key())] = append([]byte{}, it.Value()...)
@@ -493,6 +513,7 @@ func materialize(cfg config, s *snapshot, fsel, jsel int) (*world, bool) {
 		w.kv.Put([]byte(k), v)
 	}
 	w.lastAck = s.lastAck
+	w.recFloor, w.recFloorSet = s.recFloor, s.recFloorSet
 	return w, usedOld
 }
 
@@ -990,6 +1011,12 @@ func (e *env) oracle(w *world, where string) {
 	if id < w.lastAck {
 		e.failf("%s: acknowledged persistent state id %d lost (reopened at %d)", where, w.lastAck, id)
 	}
+	// the history of the reopened state itself is retained (writeHistory never prunes the
+	// history of the persisted state), unless nothing was ever pruned or a rollback ended
+	// exactly on the tail: otherwise the reopened state cannot be rolled back at all
+	if tail > 0 && id <= tail && !(w.recFloorSet && w.recFloor == tail) {
+		e.failf("%s: reopened at state id %d with history tail %d: the history of the persisted state was pruned, no rollback from the reopened state is possible", where, id, tail)
+	}
 	effm, err := e.effDump(w)
 	if err != nil {
 		e.failf("%s: disk layer unreadable after reopen: %v", where, err)
@@ -1247,8 +1274,15 @@ func run(c Sx) Result {
 			if cfg.jfile {
 				jOld = readFileOrNil(w.jPath())
 			}
+			oldFloor, oldFloorSet := w.recFloor, w.recFloorSet
+			if steps > 0 && id-uint64(steps) == tail {
+				w.recFloor, w.recFloorSet = tail, true
+			}
 			err := w.db.Recover(e.rootOf(lb))
 			errc = errClass(err)
+			if err != nil {
+				w.recFloor, w.recFloorSet = oldFloor, oldFloorSet
+			}
 			if err == nil {
 				prevHead := e.head
 				e.head = lb
@@ -1276,6 +1310,10 @@ func run(c Sx) Result {
 		}
 		w.rec.on = false
 		w.lastAck = rawdb.ReadPersistentStateID(w.kv)
+		for _, v := range w.rec.violations {
+			e.failf("op %d: %s", oi, v)
+		}
+		w.rec.violations = nil
 		kinds := append([]int64{}, w.rec.kinds...)
 		snaps := append([]*snapshot{initial}, w.rec.snaps...)
 		// the journal file protocol (temp file, fsync, rename, directory fsync) is not
@@ -1303,9 +1341,13 @@ func run(c Sx) Result {
 				s.lastAck = 0 // a rollback lowers the persistent state id on purpose
 			}
 			if cfg.jfile && jOld != nil && readFileOrNil(w.jPath()) == nil {
+				// the removal happened before the first real event that no longer saw the file
 				pos := len(kinds)
-				if pos > 0 && kinds[pos-1] == evFrTruncHead {
-					pos--
+				for i := 1; i < len(snaps); i++ {
+					if snaps[i].jlive == nil {
+						pos = i - 1
+						break
+					}
 				}
 				for _, s := range snaps[:pos+1] {
 					s.jlive, s.jdur = jOld, jOld
